@@ -14,3 +14,10 @@ META["C17"] = {
     "note": "Node kinds and list lengths (0..2) are enumerated by forking; the early-stop index is solver-decided. Trusted: go/ssa, symgo semantics, the induction argument.",
     "technique": "symbolic execution of go/ssa + SMT (z3), per-node-kind step lemma, native replay",
 }
+
+META["C12"] = {
+    "text": "Differential inductive step: from an arbitrary tree of <=3 scopes (any subset of a name pool bound to symbolic int64 values or modules, maps possibly nil, optional external lookup) one call of each exported Env method is executed symbolically on the real env package and on a 60-line reference chain-of-dictionaries model; result, error-ness and the full observable state of every scope must agree, failures must change nothing and nothing may panic. Copy/DeepCopy independence is checked with a further arbitrary mutation on either side.",
+    "design_ref": "DESIGN.md §5 C12",
+    "note": "One step from an arbitrary well-formed state covers histories of any length within the name pool and depth bound; state shapes, table contents, operation, target and names are enumerated by forking (payloads symbolic). Trusted: go/ssa, symgo semantics incl. its reflect and RWMutex models.",
+    "technique": "symbolic execution of go/ssa + SMT (z3), differential step lemma against a reference model, native replay",
+}
